@@ -93,11 +93,15 @@ struct Net {
     // (due_tick, to, from, index, mutation)
     inflight: Vec<(u64, String, String, usize, Option<String>)>,
     emitted: HashMap<String, usize>,
+    /// what was already handed over (to, from, index): a second hand-over is a pure network duplicate
+    delivered: std::collections::HashSet<(String, String, usize)>,
+    /// bracket (half of the) duplicate hand-overs with `stat <to>`: windows for the duplicates-harmless oracle
+    probe_dups: bool,
 }
 
 impl Net {
     fn new() -> Self {
-        Net { inflight: vec![], emitted: HashMap::new() }
+        Net { inflight: vec![], emitted: HashMap::new(), delivered: Default::default(), probe_dups: false }
     }
     /// flush `from`, schedule its new packets towards `to` under the fault profile
     fn flush(&mut self, rng: &mut Rng, ex: &mut dyn FnMut(&str) -> String, from: &str, to: &str, tick: u64, loss: u64, dup: u64, delay: u64) {
@@ -135,8 +139,20 @@ impl Net {
         }
         for (_, to, from, k, m) in due {
             match m {
-                None => ex(&format!("dlv {} {} {}", to, from, k)),
-                Some(m) => ex(&format!("dlvm {} {} {} {}", to, from, k, m)),
+                None => {
+                    let dup = !self.delivered.insert((to.clone(), from.clone(), k));
+                    let probe = self.probe_dups && dup && rng.chance(1, 2);
+                    if probe {
+                        ex(&format!("stat {}", to));
+                    }
+                    ex(&format!("dlv {} {} {}", to, from, k));
+                    if probe {
+                        ex(&format!("stat {}", to));
+                    }
+                }
+                Some(m) => {
+                    ex(&format!("dlvm {} {} {} {}", to, from, k, m));
+                }
             };
         }
     }
@@ -167,7 +183,9 @@ fn script_pair(rng: &mut Rng, tier: Tier, ex: &mut dyn FnMut(&str) -> String) {
     let delay = rng.pick(&[0u64, 20, 50]);
     let shuffle = rng.chance(1, 2);
     let mut net = Net::new();
+    net.probe_dups = true;
     let mut sent_bytes: u64 = 0;
+    let mut ctr = 0u32;
     for tick in 0..ticks {
         // application sends
         let ns = rng.below(4);
@@ -177,13 +195,19 @@ fn script_pair(rng: &mut Rng, tier: Tier, ex: &mut dyn FnMut(&str) -> String) {
             let c = rng.pick(chs);
             let n = gen_size(rng);
             sent_bytes += n as u64;
-            let m = rng.payload(n);
+            let m = stamped(rng, n, &mut ctr);
             ex(&format!("send {} {} {}", if from_client { "c0" } else { "s100" }, c.id, hex(&m)));
         }
         let jitter = if rng.chance(1, 4) { rng.below(dt + 1) } else { dt };
         ex(&format!("upd c0 {}", jitter));
         ex(&format!("upd srv {}", jitter));
+        if rng.chance(1, 3) {
+            ex("dump c0"); // dump + flush: promptness under whatever budget this case has
+        }
         net.flush(rng, ex, "c0", "s100", tick, loss, dup, delay);
+        if rng.chance(1, 3) {
+            ex("dump s100");
+        }
         net.flush(rng, ex, "s100", "c0", tick, loss, dup, delay);
         net.deliver_due(rng, ex, tick, shuffle);
         // application receives (sometimes between arrivals only partially)
@@ -200,6 +224,9 @@ fn script_pair(rng: &mut Rng, tier: Tier, ex: &mut dyn FnMut(&str) -> String) {
         if rng.chance(1, 5) {
             ex("dump c0");
             ex("dump s100");
+            // channel_available_memory right after a dump: max − accounted
+            let c = rng.pick(&sc);
+            ex(&format!("avail s100 {}", c.id));
         }
         if rng.chance(1, 4) {
             // the query API agrees with what send_message will do, at the exact limit too
@@ -210,6 +237,11 @@ fn script_pair(rng: &mut Rng, tier: Tier, ex: &mut dyn FnMut(&str) -> String) {
             }
             let c = rng.pick(&sc);
             ex(&format!("cansend s100 {} {}", c.id, gen_size(rng)));
+        }
+        if rng.chance(1, 3) {
+            // verdicts that wait for "still connected" (work conservation, head-of-line, memory) are raised here
+            ex("stat c0");
+            ex("stat s100");
         }
     }
     // heal: lossless, in-order, long enough for the whole backlog
@@ -284,11 +316,14 @@ fn script_timing(rng: &mut Rng, tier: Tier, ex: &mut dyn FnMut(&str) -> String) 
     let ticks = if tier == Tier::Quick { rng.range(6, 16) } else { rng.range(10, 40) };
     let mode = rng.below(4);
     let mut net = Net::new();
+    net.probe_dups = true;
     let loss = rng.pick(&[0u64, 30, 60]);
+    let mut ctr = 0u32;
     for tick in 0..ticks {
         if tick < ticks / 2 || rng.chance(1, 4) {
             for _ in 0..rng.below(3) {
-                let m = rand_msg(rng, 6000);
+                let n = gen_size(rng).min(6000);
+                let m = stamped(rng, n, &mut ctr);
                 let who = rng.pick(&["c0", "s100"]);
                 ex(&format!("send {} 1 {}", who, hex(&m)));
             }
@@ -310,7 +345,13 @@ fn script_timing(rng: &mut Rng, tier: Tier, ex: &mut dyn FnMut(&str) -> String) 
             drain(ex, "c0", 1, 5);
             drain(ex, "s100", 1, 5);
         }
+        if rng.chance(1, 4) {
+            ex("stat c0");
+            ex("stat s100");
+        }
     }
+    ex("stat c0");
+    ex("stat s100");
 }
 
 /// C15 promptness + never-after-ack on `dump X` immediately followed by `flush X` (budget generous):
@@ -429,14 +470,17 @@ fn script_long(rng: &mut Rng, _tier: Tier, ex: &mut dyn FnMut(&str) -> String) {
     let mut net = Net::new();
     let mut tick = 0u64;
     let loss = rng.pick(&[0u64, 10, 30]);
+    let mut ctr = 0u32;
     while sent < total {
         for _ in 0..per_tick {
+            // tiny messages (hundreds per packet); half of them carry a 4-byte counter so that neighbours differ
             let n = match rng.below(40) {
                 0 => rng.pick(&[1185usize, 1189, 1190, 1195, 1199, 1200]),
                 1 => 100,
+                2..=20 => 4 + rng.below(3) as usize,
                 _ => rng.below(3) as usize,
             };
-            let m = rng.payload(n);
+            let m = stamped(rng, n, &mut ctr);
             ex(&format!("send c0 2 {}", hex(&m)));
             if rng.chance(1, 3) {
                 ex(&format!("send c0 0 {}", hex(&m)));
@@ -487,8 +531,10 @@ fn script_acks(rng: &mut Rng, _tier: Tier, ex: &mut dyn FnMut(&str) -> String) {
     let n = rng.range(140, 320) as usize;
     let ch = rng.pick(&[1u8, 2]);
     // phase 1: one packet per message, no acks travel back
+    let mut ctr = 0u32;
     for i in 0..n {
-        let m = if rng.chance(1, 30) { rng.payload(1300) } else { rand_small(rng, 8) };
+        let len = if rng.chance(1, 30) { 1300 } else { rng.below(8) as usize };
+        let m = stamped(rng, len, &mut ctr);
         ex(&format!("send c0 {} {}", ch, hex(&m)));
         ex("upd c0 1000");
         ex("flush c0");
@@ -668,25 +714,106 @@ fn script_huge(_rng: &mut Rng, _tier: Tier, ex: &mut dyn FnMut(&str) -> String, 
 
 /// bulk liveness/safety: what `recvn` obtained never exceeds what `sendn` submitted, and after a
 /// heal phase with both ends connected everything submitted was obtained.
+///
+/// Content (the checksum `recvn` prints is order-sensitive): on an ORDERED channel the k messages a `recvn` drains after g
+/// earlier ones must be submissions g … g+k-1, so the expected checksum is computable here and compared — order, content
+/// and a duplicate compensated by a loss are all visible. On an UNORDERED channel the hand-over order is the
+/// implementation's choice, so the printed checksum cannot be judged; there the count is checked against the flush
+/// history instead: a `recvn` that is allowed to drain everything obtains exactly the messages completely delivered and
+/// not yet obtained ("handed over as soon as it is complete", each once).
 fn oracle_bulk(ops: &[String], outs: &[String]) -> Option<OracleFail> {
     let mut sub: HashMap<(String, String), u64> = HashMap::new();
     let mut got: HashMap<(String, String), u64> = HashMap::new();
     let mut status: HashMap<String, String> = HashMap::new();
+    let mut cfg = Cfg::default();
+    let mut segments: HashMap<(String, String), Vec<(u8, u64)>> = HashMap::new(); // (sender, ch) -> (tag, count) per sendn
+    let mut hist: HashMap<String, Vec<String>> = HashMap::new();
+    let mut complete: HashMap<(String, u8), std::collections::HashSet<u64>> = HashMap::new(); // receiver, ch -> ids (small messages only)
+    let mut honest = true;
+    let mut pending: Vec<(String, OracleFail)> = vec![];
     for (i, (op, out)) in ops.iter().zip(outs.iter()).enumerate() {
         let t: Vec<&str> = op.split(' ').collect();
         match t[0] {
+            "cfg" => {
+                if let Some(c) = parse_cfg(op) {
+                    cfg = c
+                }
+            }
+            "raw" | "dlvm" | "send" | "bcast" | "bcastx" => honest = false, // the count rule below knows bulk traffic only
+            "flush" if t.len() == 2 => {
+                for p in flush_packets(out) {
+                    hist.entry(t[1].to_string()).or_default().push(p.to_string());
+                }
+            }
+            "dlv" if t.len() == 4 => {
+                if peer_of(t[1]).as_deref() != Some(t[2]) {
+                    honest = false;
+                } else if out == "ok" {
+                    let k: usize = t[3].parse().unwrap_or(usize::MAX);
+                    if let Some(WPacket::SmallReliable { channel_id, messages, .. }) = hist.get(t[2]).and_then(|h| h.get(k)).filter(|p| p.starts_with("00")).and_then(|p| decode(p)) {
+                        let e = complete.entry((t[1].to_string(), channel_id)).or_default();
+                        for (id, _) in messages {
+                            e.insert(id);
+                        }
+                    }
+                }
+            }
             "sendn" if t.len() == 5 => {
                 *sub.entry((t[1].to_string(), t[2].to_string())).or_insert(0) += t[3].parse::<u64>().unwrap_or(0);
+                segments.entry((t[1].to_string(), t[2].to_string())).or_default().push((t[4].parse().unwrap_or(0), t[3].parse().unwrap_or(0)));
             }
             "recvn" if t.len() == 4 => {
                 let n: u64 = out.split(' ').nth(1).and_then(|x| x.parse().ok()).unwrap_or(0);
+                let printed: u64 = out.split(' ').nth(2).and_then(|x| x.parse().ok()).unwrap_or(0);
                 if let Some(p) = peer_of(t[1]) {
                     let e = got.entry((p.clone(), t[2].to_string())).or_insert(0);
+                    let before = *e;
                     *e += n;
-                    if *e > *sub.get(&(p, t[2].to_string())).unwrap_or(&0) {
+                    if *e > *sub.get(&(p.clone(), t[2].to_string())).unwrap_or(&0) {
                         return fail(i, "bulk-more-than-submitted", format!("{} obtained more messages on channel {} than were submitted", t[1], t[2]));
                     }
+                    let ch: u8 = t[2].parse().unwrap_or(0);
+                    match send_kind(&cfg, &p, ch).as_deref() {
+                        Some("RO") if out.starts_with("msgs ") => {
+                            // expected checksum of submissions before … before+n-1 (the world's fold: sum*31 + byte mod 1e9+7)
+                            let mut want: u64 = 0;
+                            let mut idx = 0u64;
+                            for (tag, cnt) in segments.get(&(p.clone(), t[2].to_string())).cloned().unwrap_or_default() {
+                                for j in 0..cnt {
+                                    if idx >= before && idx < before + n {
+                                        let mut m = vec![tag];
+                                        m.extend((j as u32).to_le_bytes());
+                                        for b in m {
+                                            want = (want * 31 + b as u64) % 1_000_000_007;
+                                        }
+                                    }
+                                    idx += 1;
+                                }
+                            }
+                            if want != printed {
+                                return fail(i, "bulk-content-or-order", format!("{} drained {} messages after {} earlier ones on ordered channel {}: their checksum is {}, that of submissions {}..{} is {}", t[1], n, before, ch, printed, before, before + n, want));
+                            }
+                        }
+                        Some("RU") if out.starts_with("msgs ") && honest => {
+                            let max: u64 = t[3].parse().unwrap_or(0);
+                            let have = complete.get(&(t[1].to_string(), ch)).map(|s| s.len() as u64).unwrap_or(0);
+                            let ready = have.saturating_sub(before);
+                            if (n < ready && n < max || n > ready) && !pending.iter().any(|q| q.0 == t[1]) {
+                                pending.push((
+                                    t[1].to_string(),
+                                    OracleFail { at: i, signature: "bulk-count-differs-from-complete".into(), what: format!("`{}` (op {}) obtained {} messages; {} distinct messages were completely delivered to {} on unordered channel {} and {} of them obtained before", op, i, n, have, t[1], ch, before) },
+                                ));
+                            }
+                        }
+                        _ => {}
+                    }
                 }
+            }
+            "stat" if t.len() == 2 && out == "connected" && pending.iter().any(|q| q.0 == t[1]) => {
+                let pos = pending.iter().position(|q| q.0 == t[1]).unwrap();
+                let mut f = pending.remove(pos).1;
+                f.at = i;
+                return Some(f);
             }
             "stat" if t.len() == 2 => {
                 status.insert(t[1].to_string(), out.clone());
@@ -895,17 +1022,40 @@ fn script_hostile(rng: &mut Rng, tier: Tier, ex: &mut dyn FnMut(&str) -> String)
     let c_ids: Vec<u8> = cc.iter().map(|c| c.id).collect();
     let ticks = if tier == Tier::Quick { rng.range(2, 8) } else { rng.range(4, 20) };
     let mut net = Net::new();
+    // the bystander pair c1 / s101 stays within its channel budgets (every message counted at its worst: whole slices), so
+    // that nothing but the hostile input next door could explain a disconnect or a lost message of it
+    let mut used: HashMap<(bool, u8), usize> = HashMap::new();
+    let mut by_bytes = 0u64;
+    let mut fit = |rng: &mut Rng, used: &mut HashMap<(bool, u8), usize>, from_client: bool, c: &Chan, m: Vec<u8>| -> Option<Vec<u8>> {
+        let cost = |n: usize| if n > 1200 { (n + 1199) / 1200 * 1200 } else { n };
+        let e = used.entry((from_client, c.id)).or_insert(0);
+        let m = if *e + cost(m.len()) <= c.max_mem { m } else { rand_small(rng, 40) };
+        if *e + cost(m.len()) <= c.max_mem {
+            *e += cost(m.len());
+            Some(m)
+        } else {
+            None
+        }
+    };
     for tick in 0..ticks {
         for h in 0..2u64 {
             if rng.chance(2, 3) {
                 let c = rng.pick(&cc);
-                let m = rand_msg(rng, 1_000_000);
-                ex(&format!("send c{} {} {}", h, c.id, hex(&m)));
+                let m = rand_msg(rng, if h == 0 { 1_000_000 } else { 3000 });
+                let m = if h == 0 { Some(m) } else { fit(rng, &mut used, true, &c, m) };
+                if let Some(m) = m {
+                    by_bytes += if h == 1 { m.len() as u64 } else { 0 };
+                    ex(&format!("send c{} {} {}", h, c.id, hex(&m)));
+                }
             }
             if rng.chance(2, 3) {
                 let c = rng.pick(&sc);
-                let m = rand_msg(rng, 1_000_000);
-                ex(&format!("send s{} {} {}", 100 + h, c.id, hex(&m)));
+                let m = rand_msg(rng, if h == 0 { 1_000_000 } else { 3000 });
+                let m = if h == 0 { Some(m) } else { fit(rng, &mut used, false, &c, m) };
+                if let Some(m) = m {
+                    by_bytes += if h == 1 { m.len() as u64 } else { 0 };
+                    ex(&format!("send s{} {} {}", 100 + h, c.id, hex(&m)));
+                }
             }
         }
         let dt = rng.pick(&[16_000u64, 100_000, 400_000, 3_100_000]);
@@ -975,10 +1125,33 @@ fn script_hostile(rng: &mut Rng, tier: Tier, ex: &mut dyn FnMut(&str) -> String)
             }
         }
     }
-    // everything keeps working afterwards
+    // everything keeps working afterwards: a perfect network for the bystander pair, long enough for its whole backlog
+    let need = 2 * by_bytes / budget + 6;
+    let hdt = sc.iter().chain(cc.iter()).map(|c| c.resend_us).max().unwrap_or(0) + 1000;
+    if need <= 60 {
+        let mut t = ticks + 10;
+        net.deliver_due(rng, ex, t, false);
+        for _ in 0..need {
+            t += 1;
+            ex(&format!("upd c1 {}", hdt));
+            ex(&format!("upd srv {}", hdt));
+            net.flush(rng, ex, "c1", "s101", t, 0, 0, 0);
+            net.flush(rng, ex, "s101", "c1", t, 0, 0, 0);
+            net.deliver_due(rng, ex, t, false);
+            for c in cc.iter() {
+                drain(ex, "s101", c.id, 10_000);
+            }
+            for c in sc.iter() {
+                drain(ex, "c1", c.id, 10_000);
+            }
+        }
+    }
     for who in ["c0", "s100", "c1", "s101"] {
         ex(&format!("dump {}", who));
         ex(&format!("stat {}", who));
+    }
+    if need <= 60 {
+        ex("note healed");
     }
     ex("ids");
     for c in sc.iter() {
@@ -1033,15 +1206,39 @@ fn script_multi(rng: &mut Rng, tier: Tier, ex: &mut dyn FnMut(&str) -> String) {
     }
     let victim = if rng.chance(1, 2) { Some(rng.below(n)) } else { None };
     let mut sent_bytes = 0u64;
+    // half of the cases: one client's session ends mid-run (server-side disconnect, removal by the transport, or the
+    // client's own disconnect); sometimes a newcomer joins right after. Everybody else must not notice.
+    let leave_at = if rng.chance(1, 2) { Some(rng.below(ticks)) } else { None };
+    let mut n = n;
+    let mut ctr = 0u32;
     for tick in 0..ticks {
+        if leave_at == Some(tick) {
+            let d = rng.below(n);
+            ex(&format!("stat s{}", 100 + d));
+            ex(&format!("stat c{}", d));
+            match rng.below(3) {
+                0 => ex(&format!("sdisc {}", 100 + d)),
+                1 => ex(&format!("rem {}", 100 + d)),
+                _ => ex(&format!("disc {}", d)),
+            };
+            if rng.chance(1, 2) {
+                ex(&format!("cli {}", n));
+                ex(&format!("add {}", 100 + n));
+                ex(&format!("setc {}", n));
+                faults.push((rng.pick(&[0u64, 20]), 0, rng.pick(&[0u64, 30])));
+                n += 1;
+            }
+        }
         for h in 0..n {
             if rng.chance(1, 2) {
-                let m = rand_msg(rng, 3000);
+                let len = gen_size(rng).min(3000);
+                let m = stamped(rng, len, &mut ctr);
                 sent_bytes += m.len() as u64;
                 ex(&format!("send c{} {} {}", h, rng.pick(&[0, 1, 2]), hex(&m)));
             }
             if rng.chance(1, 3) {
-                let m = rand_msg(rng, 3000);
+                let len = gen_size(rng).min(3000);
+                let m = stamped(rng, len, &mut ctr);
                 sent_bytes += m.len() as u64;
                 ex(&format!("send s{} {} {}", 100 + h, rng.pick(&[0, 1, 2]), hex(&m)));
             }
@@ -1069,8 +1266,30 @@ fn script_multi(rng: &mut Rng, tier: Tier, ex: &mut dyn FnMut(&str) -> String) {
         net.deliver_due(rng, ex, tick, true);
         if let Some(v) = victim {
             if rng.chance(1, 3) {
-                let b = hostile_packet(rng, &[0, 1, 2]);
-                ex(&format!("raw s{} {}", 100 + v, hex(&b)));
+                // hostile input against ONE pair, either end: made-up packets or damaged copies of genuine ones
+                let (sv, cv) = (format!("s{}", 100 + v), format!("c{}", v));
+                match rng.below(4) {
+                    0 | 1 => {
+                        let b = hostile_packet(rng, &[0, 1, 2]);
+                        ex(&format!("raw {} {}", sv, hex(&b)));
+                    }
+                    2 => {
+                        let b = hostile_packet(rng, &[0, 1, 2]);
+                        ex(&format!("raw {} {}", cv, hex(&b)));
+                    }
+                    _ => {
+                        let (to, from) = if rng.chance(1, 2) { (&sv, &cv) } else { (&cv, &sv) };
+                        let k = *net.emitted.get(from.as_str()).unwrap_or(&0);
+                        if k > 0 {
+                            let m = match rng.below(3) {
+                                0 => format!("flip:{}", rng.below(200)),
+                                1 => format!("trunc:{}", rng.below(40)),
+                                _ => format!("xor:{}:{}", rng.below(16), rng.range(1, 255)),
+                            };
+                            ex(&format!("dlvm {} {} {} {}", to, from, rng.below(k as u64), m));
+                        }
+                    }
+                }
             }
         }
         for h in 0..n {
@@ -1113,8 +1332,15 @@ fn script_multi(rng: &mut Rng, tier: Tier, ex: &mut dyn FnMut(&str) -> String) {
 // E3: arbitrary public API call sequences on RenetServer / RenetClient
 // ---------------------------------------------------------------------------------------------
 fn script_api(rng: &mut Rng, tier: Tier, ex: &mut dyn FnMut(&str) -> String) {
-    let sc = default_chans();
-    let cc = default_chans();
+    let mut sc = default_chans();
+    let mut cc = default_chans();
+    if rng.chance(1, 3) {
+        // small channel memory: connections also end by themselves, with a Send/ReceiveChannelError as their FIRST reason
+        // (which a later sdisc / rem / event must keep)
+        for c in sc.iter_mut().chain(cc.iter_mut()) {
+            c.max_mem = rng.pick(&[1200usize, 2400, 3600, 5000, 12_000]);
+        }
+    }
     ex(&cfg_line(60_000, &sc, &cc));
     let n = if tier == Tier::Quick { rng.range(10, 50) } else { rng.range(20, 150) };
     let mut handles: Vec<u64> = vec![];
@@ -1132,6 +1358,13 @@ fn script_api(rng: &mut Rng, tier: Tier, ex: &mut dyn FnMut(&str) -> String) {
             }
             3 => {
                 ex(&format!("sdisc {}", id));
+                if rng.chance(1, 2) {
+                    // post-mortem probe without a `stat` in between: nothing buffered comes out, nothing is emitted
+                    for ch in 0..3u8 {
+                        ex(&format!("recv s{} {}", id, ch));
+                    }
+                    ex(&format!("flush s{}", id));
+                }
             }
             4 => {
                 if rng.chance(1, 3) {
@@ -1213,7 +1446,14 @@ fn script_api(rng: &mut Rng, tier: Tier, ex: &mut dyn FnMut(&str) -> String) {
             }
             18 => {
                 if handles.contains(&h) {
-                    ex(&format!("{} {}", rng.pick(&["setc", "setg", "disc", "disct"]), h));
+                    let call = rng.pick(&["setc", "setg", "disc", "disct"]);
+                    ex(&format!("{} {}", call, h));
+                    if call.starts_with("disc") && rng.chance(1, 2) {
+                        for ch in 0..3u8 {
+                            ex(&format!("recv c{} {}", h, ch));
+                        }
+                        ex(&format!("flush c{}", h));
+                    }
                 }
             }
             19 => {
@@ -1900,6 +2140,7 @@ fn sweep_cap_ops(mut case: usize) -> Vec<String> {
         ops.push("dump c0".into());
     }
     ops.push("flush c0".into());
+    ops.push("stat c0".into()); // C13: the flush did not end in PacketSerialization
     ops.push("note sweep-acks".into());
     ops
 }
@@ -2345,6 +2586,97 @@ fn term_wf(t: &str) -> bool {
     }
 }
 
+fn varint_len(v: u64) -> usize {
+    if v <= 63 {
+        1
+    } else if v <= 16383 {
+        2
+    } else if v <= 1_073_741_823 {
+        4
+    } else {
+        8
+    }
+}
+
+/// is the term a packet `get_packets_to_send` can build, with every sequence number / message id up to 2^62-1?
+///  * SR / SU: the channels append small messages (≤ 1200 bytes each) while the serialised sizes (length + varints) add
+///    up to at most 1200, or the packet holds a single message;
+///  * RS / US: index < count ≤ 1 000 000, payload 1 … 1200 bytes;
+///  * AK: 1 … 64 ascending, non-adjacent, non-empty ranges.
+fn term_buildable(t: &str) -> bool {
+    let v: Vec<&str> = t.split(' ').collect();
+    let max = (1u64 << 62) - 1;
+    let num = |s: &str| s.parse::<u64>().ok().filter(|x| *x <= max);
+    let hexlen = |h: &str| if h == "-" { Some(0usize) } else if h.len() % 2 == 0 { Some(h.len() / 2) } else { None };
+    if v.len() < 3 || num(v[1]).is_none() {
+        return false;
+    }
+    match v[0] {
+        "SR" | "SU" => {
+            if v[2].parse::<u8>().is_err() {
+                return false;
+            }
+            let n: usize = match v.get(3).and_then(|x| x.parse().ok()) {
+                Some(n) => n,
+                None => return false,
+            };
+            let per = if v[0] == "SR" { 2 } else { 1 };
+            if v.len() != 4 + per * n || n > 65_535 {
+                return false;
+            }
+            let mut total = 0usize;
+            for i in 0..n {
+                let (id_len, h) = if v[0] == "SR" {
+                    match num(v[4 + 2 * i]) {
+                        Some(id) => (varint_len(id), v[5 + 2 * i]),
+                        None => return false,
+                    }
+                } else {
+                    (0, v[4 + i])
+                };
+                let l = match hexlen(h) {
+                    Some(l) if l <= 1200 => l,
+                    _ => return false,
+                };
+                total += l + varint_len(l as u64) + id_len;
+            }
+            n == 1 || total <= 1200
+        }
+        "RS" | "US" if v.len() == 7 => {
+            let (idx, n) = match (num(v[4]), num(v[5])) {
+                (Some(i), Some(n)) => (i, n),
+                _ => return false,
+            };
+            let len = hexlen(v[6]).unwrap_or(usize::MAX);
+            v[2].parse::<u8>().is_ok() && num(v[3]).is_some() && n >= 1 && n <= 1_000_000 && idx < n && len >= 1 && len <= 1200
+        }
+        "AK" => v[2].parse::<usize>().map(|n| n >= 1 && n <= 64).unwrap_or(false) && term_wf(t),
+        _ => false,
+    }
+}
+
+/// C13 on the wire level: "serialization never fails, for any mix of message sizes, message ids, packet sequence numbers
+/// and pending acknowledgement ranges" and the result fits 1300 bytes — for every `enc` of a packet the library can build
+/// (`term_buildable`), whatever the magnitudes.
+fn oracle_c13_wire(ops: &[String], outs: &[String]) -> Option<OracleFail> {
+    for (i, (op, out)) in ops.iter().zip(outs.iter()).enumerate() {
+        let t = match op.strip_prefix("enc ") {
+            Some(t) => t,
+            None => continue,
+        };
+        if out == "bad-op" || out == "dead" || !term_buildable(t) {
+            continue;
+        }
+        if out.starts_with("err:") || out == "panic" {
+            return fail(i, "buildable-packet-does-not-serialize", format!("`{}` answers {} for a packet the send path can build: {}", &op[..op.len().min(20)], out, &t[..t.len().min(100)]));
+        }
+        if out != "-" && out.len() > 2600 {
+            return fail(i, "buildable-packet-too-long", format!("a packet the send path can build serialises to {} bytes (> 1300): {}", out.len() / 2, &t[..t.len().min(100)]));
+        }
+    }
+    None
+}
+
 /// C16 on the implementation: `dec` of what `enc T` produced gives T; a decoded term re-encodes and
 /// decodes to itself.
 fn oracle_c16(ops: &[String], outs: &[String]) -> Option<OracleFail> {
@@ -2357,6 +2689,59 @@ fn oracle_c16(ops: &[String], outs: &[String]) -> Option<OracleFail> {
         if let (Some(_), Some(t)) = (ops[i - 1].strip_prefix("dec "), ops[i].strip_prefix("enc ")) {
             if outs[i - 1] == t && (outs[i] == "panic") {
                 return fail(i, "reencode-panics", format!("re-encoding a decoded packet panics: {}", &t[..t.len().min(100)]));
+            }
+        }
+    }
+    None
+}
+
+/// C16 on real traffic (profiles whose ids / sequences cross the varint widths or hold > 64 ack ranges): every packet an
+/// endpoint emits decodes, the decoded value re-encodes, and the re-encoding decodes to the same value; the Ack packet
+/// of a flush denotes exactly the pending list the adjacent `dump` of the same endpoint shows ("the set of sequence
+/// numbers recorded as received").
+fn oracle_c16_emitted(ops: &[String], outs: &[String]) -> Option<OracleFail> {
+    for (i, (op, out)) in ops.iter().zip(outs.iter()).enumerate() {
+        let who = match op.strip_prefix("flush ") {
+            Some(w) => w,
+            None => continue,
+        };
+        let pk = flush_packets(out);
+        let mut ack: Option<String> = None;
+        for p in pk.iter() {
+            let t = match decode(p) {
+                Some(t) => t,
+                None => return fail(i, "emitted-undecodable", format!("{} emitted a packet its own decoder rejects: {}", who, &p[..p.len().min(60)])),
+            };
+            let shown = show_term(&t);
+            let mut buffer = [0u8; 1400];
+            let mut oct = octets::OctetsMut::with_slice(&mut buffer);
+            let len = match t.to_bytes(&mut oct) {
+                Ok(l) => l,
+                Err(e) => return fail(i, "emitted-reencode-fails", format!("{}: the decoded packet `{}` does not re-encode: {:?}", who, &shown[..shown.len().min(80)], e)),
+            };
+            match decode(&hex(&buffer[..len])) {
+                Some(t2) if show_term(&t2) == shown => {}
+                _ => return fail(i, "emitted-reencode-differs", format!("{}: re-encoding the decoded packet `{}` decodes to another value", who, &shown[..shown.len().min(80)])),
+            }
+            if let WPacket::Ack { ack_ranges, .. } = &t {
+                let v: Vec<String> = ack_ranges.iter().map(|r| format!("{}-{}", r.start, r.end)).collect();
+                ack = Some(v.join(";"));
+            }
+        }
+        if pk.is_empty() {
+            continue; // a disconnected endpoint emits nothing
+        }
+        let dump_of = |j: usize| -> Option<&str> {
+            if ops.get(j).map(|o| o == &format!("dump {}", who)).unwrap_or(false) && outs[j].starts_with("seq=") {
+                head_field(&outs[j], "acks")
+            } else {
+                None
+            }
+        };
+        let adjacent = dump_of(i + 1).or(if i > 0 { dump_of(i - 1) } else { None });
+        if let Some(acks) = adjacent {
+            if ack.as_deref().unwrap_or("") != acks {
+                return fail(i, "ack-packet-not-the-pending-set", format!("{} holds pending acks [{}] but its flush carried the ack ranges [{}]", who, &acks[..acks.len().min(120)], ack.as_deref().map(|a| &a[..a.len().min(120)]).unwrap_or("none")));
             }
         }
     }
@@ -2399,6 +2784,7 @@ fn script_small_budget(rng: &mut Rng, _tier: Tier, ex: &mut dyn FnMut(&str) -> S
     let round = |ex: &mut dyn FnMut(&str) -> String, em: &mut HashMap<String, usize>| {
         ex("upd c0 301000");
         ex("upd srv 301000");
+        ex(&format!("dump {}", a)); // dump + flush: what is unacknowledged, due and fits must go out (C14 / C15)
         flush_to(ex, em, a, b, &mut |_, _| true);
         for c in 0..3u8 {
             drain(ex, b, c, 100);
@@ -2413,8 +2799,12 @@ fn script_small_budget(rng: &mut Rng, _tier: Tier, ex: &mut dyn FnMut(&str) -> S
     for k in 0..n {
         ex(&format!("send {} 0 {}", a, hex(&pat(100, k as u8))));
     }
+    // … every third one as large as a small message / the budget allows: it has to wait for a tick with enough budget
+    // left, the 100-byte ones behind it must not wait with it
+    let big = (budget.min(1200) as usize) - rng.pick(&[0usize, 1, 50]);
     for k in 0..n {
-        ex(&format!("send {} {} {}", a, 3 - rel, hex(&pat(100, 100 + k as u8))));
+        let len = if k % 3 == 1 { big } else { 100 };
+        ex(&format!("send {} {} {}", a, 3 - rel, hex(&pat(len, 100 + k as u8))));
     }
     for _ in 0..(3 + 2 * n + 12) {
         round(ex, &mut em);
@@ -2541,6 +2931,65 @@ fn script_ack_gap(rng: &mut Rng, _tier: Tier, ex: &mut dyn FnMut(&str) -> String
     ex("note healed");
 }
 
+/// C03 "for every size from 0 bytes up to the channel budget … large": one message of 100 … 257 slices (the slice index
+/// and count cross one byte, 120 … 308 kB) on an unreliable and on a reliable channel in the same tick, every datagram
+/// delivered, in order / reversed / shuffled, a few of them twice.
+fn script_bigmsg(rng: &mut Rng, tier: Tier, ex: &mut dyn FnMut(&str) -> String) {
+    let u = Chan { id: 0, kind: "U", max_mem: 5 * 1024 * 1024, resend_us: 0 };
+    let r = Chan { id: 1, kind: rng.pick(&["RO", "RU"]), max_mem: 5 * 1024 * 1024, resend_us: 300_000 };
+    let order = if rng.chance(1, 2) { vec![u.clone(), r.clone()] } else { vec![r.clone(), u.clone()] };
+    ex(&cfg_line(700_000, &order, &order));
+    ex("cli 0");
+    ex("add 100");
+    ex("setc 0");
+    let who = rng.pick(&[("c0", "s100"), ("s100", "c0")]);
+    let (a, b) = (who.0, who.1);
+    let mut ctr = 0u32;
+    for ch in [0u8, 1] {
+        // (the list-based model needs seconds per 300 kB message: the quick tier stays below 80 slices)
+        let n = if tier == Tier::Quick { rng.pick(&[63usize, 64, 65, 70]) } else { rng.pick(&[255usize, 256, 257, 100, 128]) };
+        let len = n * 1200 - rng.pick(&[0usize, 1, 600, 1199]);
+        let m = stamped(rng, len, &mut ctr);
+        ex(&format!("send {} {} {}", a, ch, hex(&m)));
+    }
+    ex("upd c0 1000");
+    ex("upd srv 1000");
+    let k = pkts_count(&ex(&format!("flush {}", a)));
+    let mut idx: Vec<usize> = (0..k).collect();
+    match rng.below(3) {
+        0 => idx.reverse(),
+        1 => {
+            for i in (1..idx.len()).rev() {
+                let j = rng.below(i as u64 + 1) as usize;
+                idx.swap(i, j);
+            }
+        }
+        _ => {}
+    }
+    for i in idx {
+        ex(&format!("dlv {} {} {}", b, a, i));
+        if rng.chance(1, 40) {
+            ex(&format!("dlv {} {} {}", b, a, i));
+        }
+    }
+    for ch in [0u8, 1] {
+        drain(ex, b, ch, 4);
+    }
+    ex(&format!("stat {}", a));
+    ex(&format!("stat {}", b));
+}
+
+/// payload whose first four bytes are a per-script counter (when it has four): two submissions of one script never carry
+/// the same bytes, so a swapped, duplicated or substituted message is visible whatever its length
+fn stamped(rng: &mut Rng, n: usize, ctr: &mut u32) -> Vec<u8> {
+    let mut m = rng.payload(n);
+    if n >= 4 {
+        m[..4].copy_from_slice(&ctr.to_le_bytes());
+        *ctr += 1;
+    }
+    m
+}
+
 pub fn profiles() -> Vec<Profile> {
     vec![Profile {
         name: "rn-regress",
@@ -2584,7 +3033,7 @@ pub fn profiles() -> Vec<Profile> {
     },
     Profile {
         name: "rn-hostile",
-        props: &["C06", "C09", "C11", "C12"],
+        props: &["C06", "C09", "C11", "C12", "C13"],
         cases: |t| if t == Tier::Quick { 400 } else { 8000 },
         new_world,
         script: script_hostile,
@@ -2604,7 +3053,7 @@ pub fn profiles() -> Vec<Profile> {
     },
     Profile {
         name: "rn-multi",
-        props: &["C11", "C01", "C02", "C03"],
+        props: &["C11", "C01", "C02", "C03", "C13", "C14"],
         cases: |t| if t == Tier::Quick { 120 } else { 2000 },
         new_world,
         script: script_multi,
@@ -2645,7 +3094,7 @@ pub fn profiles() -> Vec<Profile> {
     },
     Profile {
         name: "rn-unrel",
-        props: &["C03", "C14", "C09", "C11"],
+        props: &["C03", "C14", "C09", "C11", "C13", "C15"],
         cases: |t| if t == Tier::Quick { 200 } else { 3000 },
         new_world,
         script: script_unrel,
@@ -2654,8 +3103,18 @@ pub fn profiles() -> Vec<Profile> {
         fixed: None,
     },
     Profile {
+        name: "rn-bigmsg",
+        props: &["C03"],
+        cases: |t| if t == Tier::Quick { 4 } else { 40 },
+        new_world,
+        script: script_bigmsg,
+        nontrivial: |t| t.outs.iter().filter(|o| o.starts_with("msg ")).count() >= 2,
+        keep: keep_cfg,
+        fixed: None,
+    },
+    Profile {
         name: "rn-tight",
-        props: &["C01", "C02", "C09", "C06"],
+        props: &["C01", "C02", "C09", "C06", "C15"],
         cases: |t| if t == Tier::Quick { 300 } else { 5000 },
         new_world,
         script: script_tight,
@@ -2755,7 +3214,7 @@ pub fn profiles() -> Vec<Profile> {
     },
     Profile {
         name: "rn-timing",
-        props: &["C15", "C08", "C01", "C02"],
+        props: &["C15", "C08", "C01", "C02", "C09", "C13", "C14"],
         cases: |t| if t == Tier::Quick { 200 } else { 3000 },
         new_world,
         script: script_timing,
@@ -2785,7 +3244,7 @@ pub fn profiles() -> Vec<Profile> {
     },
     Profile {
         name: "rn-pair",
-        props: &["C01", "C02", "C03", "C06", "C08", "C09", "C13", "C14", "C15"],
+        props: &["C01", "C02", "C03", "C06", "C08", "C09", "C11", "C13", "C14", "C15"],
         cases: |t| if t == Tier::Quick { 300 } else { 4000 },
         new_world,
         script: script_pair,
@@ -2855,16 +3314,27 @@ fn fail(at: usize, sig: &str, what: String) -> Option<OracleFail> {
 /// C01: on every ordered channel the obtained sequence is a prefix of the submitted one;
 /// after `note healed` with both ends connected, everything submitted was obtained.
 fn oracle_c01(ops: &[String], outs: &[String]) -> Option<OracleFail> {
-    reliable_oracle(ops, outs, "RO")
+    reliable_oracle(ops, outs, "RO", None)
+}
+
+/// the same two oracles restricted to the bystander pair c1 / s101 of `rn-hostile` (C06 "the server's other connections
+/// keep working", C11 "misbehaviour of one client never delays, drops or corrupts traffic of other clients")
+fn oracle_c01_bystander(ops: &[String], outs: &[String]) -> Option<OracleFail> {
+    reliable_oracle(ops, outs, "RO", Some(&["c1", "s101"]))
+}
+
+fn oracle_c02_bystander(ops: &[String], outs: &[String]) -> Option<OracleFail> {
+    reliable_oracle(ops, outs, "RU", Some(&["c1", "s101"]))
 }
 
 /// C02: on every unordered channel each obtained message equals a submitted one not obtained
 /// before (multiset inclusion, byte-identical); liveness as C01.
 fn oracle_c02(ops: &[String], outs: &[String]) -> Option<OracleFail> {
-    reliable_oracle(ops, outs, "RU")
+    reliable_oracle(ops, outs, "RU", None)
 }
 
-fn reliable_oracle(ops: &[String], outs: &[String], kind: &str) -> Option<OracleFail> {
+fn reliable_oracle(ops: &[String], outs: &[String], kind: &str, only: Option<&[&str]>) -> Option<OracleFail> {
+    let judged = |who: &str| only.map(|l| l.contains(&who)).unwrap_or(true);
     let mut cfg = Cfg::default();
     // (sender, ch) -> submitted messages (hex), and per entry whether it was obtained
     let mut submitted: HashMap<(String, u8), Vec<(String, bool)>> = HashMap::new();
@@ -2923,7 +3393,7 @@ fn reliable_oracle(ops: &[String], outs: &[String], kind: &str) -> Option<Oracle
                 }
             }
             "recv" if t.len() == 3 && out.starts_with("msg ") => {
-                if tainted.contains(t[1]) {
+                if tainted.contains(t[1]) || !judged(t[1]) {
                     continue;
                 }
                 let ch: u8 = t[2].parse().ok()?;
@@ -2965,7 +3435,7 @@ fn reliable_oracle(ops: &[String], outs: &[String], kind: &str) -> Option<Oracle
                         Some(p) => p,
                         None => continue,
                     };
-                    if tainted.contains(sender) || tainted.contains(&recv) {
+                    if tainted.contains(sender) || tainted.contains(&recv) || !judged(sender) {
                         continue;
                     }
                     let ok_status = |w: &str| status.get(w).map(|s| s == "connected").unwrap_or(false);
@@ -2982,6 +3452,147 @@ fn reliable_oracle(ops: &[String], outs: &[String], kind: &str) -> Option<Oracle
         }
     }
     None
+}
+
+/// C02 (second sentence) / C11: "a message is handed over as soon as it is complete, without waiting for older ones".
+/// From the trace alone: the flush history tells what every delivered datagram carried; a reliable message is complete at
+/// the receiver once a SmallReliable packet carrying it, or every slice of it, was handed to the receiver (`dlv … ok`).
+/// Each complete id is handed to the application exactly once, so when `recv X ch` answers `none` the number of messages X
+/// obtained on ch so far must be the number of distinct complete ids (unordered), resp. at least the length of the complete
+/// prefix 0..m (ordered; only registered under C11: nothing but the stream itself may hold an ordered message back).
+/// A verdict waits for a later `stat X` = connected (disconnection is final, so X was connected at the `recv`; a receiver
+/// that ran out of channel memory is not judged). Pairs fed anything but the peer's genuine packets are not judged.
+fn hol_oracle(ops: &[String], outs: &[String], kinds: &[&str]) -> Option<OracleFail> {
+    let mut cfg = Cfg::default();
+    let mut hist: HashMap<String, Vec<String>> = HashMap::new();
+    let mut tainted: std::collections::HashSet<String> = Default::default();
+    let mut seen_endpoint: std::collections::HashSet<String> = Default::default();
+    let mut complete: HashMap<(String, u8), std::collections::BTreeSet<u64>> = HashMap::new();
+    let mut partial: HashMap<(String, u8, u64), (usize, std::collections::HashSet<usize>)> = HashMap::new();
+    let mut obtained: HashMap<(String, u8), usize> = HashMap::new();
+    let mut pending: Vec<(String, OracleFail)> = vec![];
+    let taint = |set: &mut std::collections::HashSet<String>, who: &str| {
+        set.insert(who.to_string());
+        if let Some(p) = peer_of(who) {
+            set.insert(p);
+        }
+    };
+    for (i, (op, out)) in ops.iter().zip(outs.iter()).enumerate() {
+        let t: Vec<&str> = op.split(' ').collect();
+        match t[0] {
+            "cfg" => {
+                if let Some(c) = parse_cfg(op) {
+                    cfg = c
+                }
+            }
+            "lnew" | "lproc" | "ldisc" => return None,
+            "cli" | "add" if t.len() == 2 => {
+                // a second object under the same name starts with fresh message ids: not judged
+                let who = if t[0] == "cli" { format!("c{}", t[1]) } else { format!("s{}", t[1]) };
+                if !seen_endpoint.insert(who.clone()) {
+                    taint(&mut tainted, &who);
+                }
+            }
+            "raw" | "dlvm" if t.len() > 1 => taint(&mut tainted, t[1]),
+            "flush" if t.len() == 2 => {
+                for p in flush_packets(out) {
+                    hist.entry(t[1].to_string()).or_default().push(p.to_string());
+                }
+            }
+            "dlv" if t.len() == 4 => {
+                if peer_of(t[1]).as_deref() != Some(t[2]) {
+                    taint(&mut tainted, t[1]);
+                    continue;
+                }
+                if out != "ok" || tainted.contains(t[1]) {
+                    continue;
+                }
+                let k: usize = t[3].parse().unwrap_or(usize::MAX);
+                match hist.get(t[2]).and_then(|h| h.get(k)).and_then(|p| decode(p)) {
+                    Some(WPacket::SmallReliable { channel_id, messages, .. }) => {
+                        if send_kind(&cfg, t[2], channel_id).map(|k| kinds.contains(&k.as_str())).unwrap_or(false) {
+                            let set = complete.entry((t[1].to_string(), channel_id)).or_default();
+                            for (id, _) in messages {
+                                set.insert(id);
+                            }
+                        }
+                    }
+                    Some(WPacket::ReliableSlice { channel_id, slice, .. }) => {
+                        if send_kind(&cfg, t[2], channel_id).map(|k| kinds.contains(&k.as_str())).unwrap_or(false) {
+                            let e = partial.entry((t[1].to_string(), channel_id, slice.message_id)).or_insert((slice.num_slices, Default::default()));
+                            if e.0 == slice.num_slices && slice.slice_index < e.0 {
+                                e.1.insert(slice.slice_index);
+                                if e.1.len() == e.0 {
+                                    complete.entry((t[1].to_string(), channel_id)).or_default().insert(slice.message_id);
+                                }
+                            }
+                        }
+                    }
+                    _ => {}
+                }
+            }
+            "recv" if t.len() == 3 => {
+                let ch: u8 = match t[2].parse() {
+                    Ok(c) => c,
+                    Err(_) => continue,
+                };
+                let key = (t[1].to_string(), ch);
+                if out.starts_with("msg ") {
+                    *obtained.entry(key).or_insert(0) += 1;
+                } else if out == "none" && !tainted.contains(t[1]) {
+                    let sender = match peer_of(t[1]) {
+                        Some(p) => p,
+                        None => continue,
+                    };
+                    let kind = match send_kind(&cfg, &sender, ch) {
+                        Some(k) => k,
+                        None => continue,
+                    };
+                    let got = *obtained.get(&key).unwrap_or(&0);
+                    let empty = Default::default();
+                    let set = complete.get(&key).unwrap_or(&empty);
+                    let (ready, sig) = if kind == "RU" {
+                        (set.len(), "complete-message-held-back")
+                    } else {
+                        let mut m = 0u64;
+                        while set.contains(&m) {
+                            m += 1;
+                        }
+                        (m as usize, "complete-ordered-prefix-held-back")
+                    };
+                    if got < ready && !pending.iter().any(|p| p.0 == t[1]) {
+                        pending.push((
+                            t[1].to_string(),
+                            OracleFail {
+                                at: i,
+                                signature: sig.into(),
+                                what: format!("`{}` (op {}) answered none although {} {} message(s) were completely delivered to {} on channel {} and only {} obtained", op, i, ready, kind, t[1], ch, got),
+                            },
+                        ));
+                    }
+                }
+            }
+            "stat" if t.len() == 2 && out == "connected" => {
+                if let Some(pos) = pending.iter().position(|p| p.0 == t[1]) {
+                    if !tainted.contains(t[1]) {
+                        let mut f = pending.remove(pos).1;
+                        f.at = i;
+                        return Some(f);
+                    }
+                }
+            }
+            _ => {}
+        }
+    }
+    None
+}
+
+fn oracle_hol_unordered(ops: &[String], outs: &[String]) -> Option<OracleFail> {
+    hol_oracle(ops, outs, &["RU"])
+}
+
+fn oracle_hol_any(ops: &[String], outs: &[String]) -> Option<OracleFail> {
+    hol_oracle(ops, outs, &["RU", "RO"])
 }
 
 /// C03: whatever is obtained on channel c was submitted on channel c of the same connection
@@ -3030,6 +3641,232 @@ fn oracle_c03(ops: &[String], outs: &[String]) -> Option<OracleFail> {
     None
 }
 
+
+/// C03 / C11 for every channel kind, broadcasts included, pairs under hostile input excluded:
+///  * whatever X obtains on channel c was submitted to X's own connection on channel c — by `send` of its peer, or by a
+///    `bcast` / `bcastx` that did not exclude it ("a message sent to one client is obtained only by that client … a message
+///    a client sent is obtained only under that client's id");
+///  * on an Unreliable channel a message is obtained "at most as many times as the network delivered each of the packets
+///    carrying it": the flush history tells which datagrams carry which message (a sliced message: all its slices), `dlv`
+///    ops tell how often each datagram was handed over; copies obtained ≤ Σ over the carrying instances of (small: hand-overs
+///    of the packet; sliced: the minimum over its slices' hand-overs).
+fn oracle_integrity(ops: &[String], outs: &[String]) -> Option<OracleFail> {
+    let mut cfg = Cfg::default();
+    let mut tainted: std::collections::HashSet<String> = Default::default();
+    let mut seen_endpoint: std::collections::HashSet<String> = Default::default();
+    let mut added: Vec<String> = vec![];
+    let mut submitted: HashMap<(String, u8), HashMap<String, usize>> = HashMap::new();
+    let mut obtained: HashMap<(String, u8), HashMap<String, usize>> = HashMap::new();
+    let mut hist: HashMap<String, Vec<String>> = HashMap::new();
+    // receiver, channel -> content -> hand-overs of small unreliable instances
+    let mut small_allow: HashMap<(String, u8), HashMap<String, usize>> = HashMap::new();
+    // sender, channel, sliced message id -> (number of slices, payload per slice index)
+    let mut sliced: HashMap<(String, u8, u64), (usize, HashMap<usize, Vec<u8>>)> = HashMap::new();
+    // sender, channel -> content -> sliced message ids with that content (filled lazily)
+    let mut slice_deliv: HashMap<(String, u8, u64), HashMap<usize, usize>> = HashMap::new(); // receiver, ch, id -> idx -> hand-overs
+    let taint = |set: &mut std::collections::HashSet<String>, who: &str| {
+        set.insert(who.to_string());
+        if let Some(p) = peer_of(who) {
+            set.insert(p);
+        }
+    };
+    for (i, (op, out)) in ops.iter().zip(outs.iter()).enumerate() {
+        let t: Vec<&str> = op.split(' ').collect();
+        match t[0] {
+            "cfg" => {
+                if let Some(c) = parse_cfg(op) {
+                    cfg = c
+                }
+            }
+            "lnew" | "lproc" | "ldisc" => return None,
+            "cli" | "add" if t.len() == 2 => {
+                let who = if t[0] == "cli" { format!("c{}", t[1]) } else { format!("s{}", t[1]) };
+                if !seen_endpoint.insert(who.clone()) {
+                    taint(&mut tainted, &who);
+                }
+                if t[0] == "add" && !added.iter().any(|a| a == t[1]) {
+                    added.push(t[1].to_string());
+                }
+            }
+            "raw" | "dlvm" if t.len() > 1 => taint(&mut tainted, t[1]),
+            "send" if t.len() == 4 => {
+                if let Ok(ch) = t[2].parse::<u8>() {
+                    *submitted.entry((t[1].to_string(), ch)).or_default().entry(t[3].to_string()).or_insert(0) += 1;
+                }
+            }
+            "bcast" | "bcastx" => {
+                let (ex_id, ch, m) = if t[0] == "bcast" && t.len() == 3 { ("", t[1], t[2]) } else if t[0] == "bcastx" && t.len() == 4 { (t[1], t[2], t[3]) } else { continue };
+                if let Ok(ch) = ch.parse::<u8>() {
+                    for id in added.iter() {
+                        if id != ex_id {
+                            *submitted.entry((format!("s{}", id), ch)).or_default().entry(m.to_string()).or_insert(0) += 1;
+                        }
+                    }
+                }
+            }
+            "flush" if t.len() == 2 => {
+                for p in flush_packets(out) {
+                    hist.entry(t[1].to_string()).or_default().push(p.to_string());
+                    if !p.starts_with("03") {
+                        continue; // only unreliable slices matter here
+                    }
+                    if let Some(WPacket::UnreliableSlice { channel_id, slice, .. }) = decode(p) {
+                        let e = sliced.entry((t[1].to_string(), channel_id, slice.message_id)).or_insert((slice.num_slices, HashMap::new()));
+                        e.1.insert(slice.slice_index, slice.payload.to_vec());
+                    }
+                }
+            }
+            "dlv" if t.len() == 4 => {
+                if peer_of(t[1]).as_deref() != Some(t[2]) {
+                    taint(&mut tainted, t[1]);
+                    continue;
+                }
+                if out != "ok" {
+                    continue;
+                }
+                let k: usize = t[3].parse().unwrap_or(usize::MAX);
+                match hist.get(t[2]).and_then(|h| h.get(k)).filter(|p| p.starts_with("01") || p.starts_with("03")).and_then(|p| decode(p)) {
+                    Some(WPacket::SmallUnreliable { channel_id, messages, .. }) => {
+                        let e = small_allow.entry((t[1].to_string(), channel_id)).or_default();
+                        for m in messages {
+                            *e.entry(hex(&m)).or_insert(0) += 1;
+                        }
+                    }
+                    Some(WPacket::UnreliableSlice { channel_id, slice, .. }) => {
+                        *slice_deliv.entry((t[1].to_string(), channel_id, slice.message_id)).or_default().entry(slice.slice_index).or_insert(0) += 1;
+                    }
+                    _ => {}
+                }
+            }
+            "recv" if t.len() == 3 && out.starts_with("msg ") => {
+                if tainted.contains(t[1]) {
+                    continue;
+                }
+                let ch: u8 = t[2].parse().ok()?;
+                let sender = match peer_of(t[1]) {
+                    Some(p) => p,
+                    None => continue,
+                };
+                let m = out[4..].to_string();
+                let n_sub = submitted.get(&(sender.clone(), ch)).and_then(|h| h.get(&m)).copied().unwrap_or(0);
+                if n_sub == 0 {
+                    return fail(i, "not-submitted", format!("{} obtained on channel {} a {}-byte message that was never submitted to its connection ({} channel {})", t[1], ch, if m == "-" { 0 } else { m.len() / 2 }, sender, ch));
+                }
+                if send_kind(&cfg, &sender, ch).as_deref() != Some("U") {
+                    continue;
+                }
+                let got = {
+                    let e = obtained.entry((t[1].to_string(), ch)).or_default().entry(m.clone()).or_insert(0);
+                    *e += 1;
+                    *e
+                };
+                let mut allowed = small_allow.get(&(t[1].to_string(), ch)).and_then(|h| h.get(&m)).copied().unwrap_or(0);
+                if allowed < got && m.len() / 2 > 1200 {
+                    let want = unhex(&m).unwrap_or_default();
+                    for ((snd, c, id), (n, parts)) in sliced.iter() {
+                        if snd != &sender || *c != ch || parts.len() != *n {
+                            continue;
+                        }
+                        let total: usize = parts.values().map(|p| p.len()).sum();
+                        if total != want.len() {
+                            continue;
+                        }
+                        let mut content: Vec<u8> = Vec::with_capacity(total);
+                        for k in 0..*n {
+                            content.extend(parts.get(&k).map(|p| p.as_slice()).unwrap_or(&[]));
+                        }
+                        if content != want {
+                            continue;
+                        }
+                        let d = slice_deliv.get(&(t[1].to_string(), ch, *id));
+                        let min = (0..*n).map(|k| d.and_then(|d| d.get(&k)).copied().unwrap_or(0)).min().unwrap_or(0);
+                        allowed += min;
+                    }
+                }
+                if got > allowed {
+                    return fail(i, "more-than-delivered", format!("{} obtained a {}-byte message on unreliable channel {} {} time(s) although the datagrams carrying it were handed over often enough for {} only", t[1], if m == "-" { 0 } else { m.len() / 2 }, ch, got, allowed));
+                }
+            }
+            _ => {}
+        }
+    }
+    None
+}
+
+/// C11 / C06: an endpoint that saw only its peer's genuine packets is disconnected only for a cause the trace shows — the
+/// application's own call (`sdisc` / `sdiscall` → DisconnectedByServer on that server connection, `disc` →
+/// DisconnectedByClient, `disct` → Transport on that client), or channel memory really exceeded (`budget_sums`). Anything
+/// else means somebody else's input, disconnection or traffic tore this connection down.
+fn oracle_disconnect_justified(ops: &[String], outs: &[String]) -> Option<OracleFail> {
+    let mut tainted: std::collections::HashSet<String> = Default::default();
+    let mut seen_endpoint: std::collections::HashSet<String> = Default::default();
+    let mut cause: HashMap<String, std::collections::HashSet<&'static str>> = HashMap::new();
+    let mut added: Vec<String> = vec![];
+    let taint = |set: &mut std::collections::HashSet<String>, who: &str| {
+        set.insert(who.to_string());
+        if let Some(p) = peer_of(who) {
+            set.insert(p);
+        }
+    };
+    for (i, (op, out)) in ops.iter().zip(outs.iter()).enumerate() {
+        let t: Vec<&str> = op.split(' ').collect();
+        match t[0] {
+            "lnew" | "lproc" | "ldisc" => return None,
+            "cli" | "add" if t.len() == 2 => {
+                let who = if t[0] == "cli" { format!("c{}", t[1]) } else { format!("s{}", t[1]) };
+                if !seen_endpoint.insert(who.clone()) {
+                    taint(&mut tainted, &who);
+                }
+                if t[0] == "add" {
+                    added.push(t[1].to_string());
+                }
+            }
+            "raw" | "dlvm" if t.len() > 1 => taint(&mut tainted, t[1]),
+            "dlv" if t.len() == 4 => {
+                if peer_of(t[1]).as_deref() != Some(t[2]) {
+                    taint(&mut tainted, t[1]);
+                }
+            }
+            "sdisc" if t.len() == 2 => {
+                cause.entry(format!("s{}", t[1])).or_default().insert("DisconnectedByServer");
+            }
+            "sdiscall" => {
+                for id in added.iter() {
+                    cause.entry(format!("s{}", id)).or_default().insert("DisconnectedByServer");
+                }
+            }
+            "disc" if t.len() == 2 => {
+                cause.entry(format!("c{}", t[1])).or_default().insert("DisconnectedByClient");
+            }
+            "disct" if t.len() == 2 => {
+                cause.entry(format!("c{}", t[1])).or_default().insert("Transport");
+            }
+            "stat" if t.len() == 2 && !tainted.contains(t[1]) => {
+                let reason = match out.strip_prefix("disconnected:") {
+                    Some(r) => r,
+                    None => continue,
+                };
+                if cause.get(t[1]).map(|c| c.contains(reason)).unwrap_or(false) {
+                    continue;
+                }
+                if reason.contains("ReliableChannelMaxMemoryReached") {
+                    let send_side = reason.starts_with("SendChannelError(");
+                    let ch: Option<u8> = reason.split('(').nth(1).and_then(|r| r.split(',').next()).and_then(|x| x.parse().ok());
+                    let sender = if send_side { Some(t[1].to_string()) } else { peer_of(t[1]) };
+                    if let (Some(ch), Some(sender)) = (ch, sender) {
+                        let (sum, max) = budget_sums(ops, i).get(&(sender, ch)).copied().unwrap_or((0, u64::MAX));
+                        if sum > max {
+                            continue; // the channel's budget really can have been exceeded
+                        }
+                    }
+                }
+                return fail(i, "disconnect-without-cause", format!("{} is `{}`, but it was handed only its peer's genuine packets, no call in the trace disconnects it that way and its channels stayed within their budgets", t[1], out));
+            }
+            _ => {}
+        }
+    }
+    None
+}
 
 // ---------------------------------------------------------------------------------------------
 // oracles for C06 C08 C09 C12 C13 C14 C15
@@ -3381,6 +4218,111 @@ fn oracle_c09(ops: &[String], outs: &[String]) -> Option<OracleFail> {
     None
 }
 
+/// C09 "the memory accounted to it": at every dump the accounted bytes of a channel equal what the same dump shows the
+/// channel to hold — send reliable: Σ lengths of the unacknowledged messages; send unreliable: Σ queued lengths; receive
+/// (both kinds): Σ lengths of the buffered messages + 1200 x the announced slice count of every message being
+/// reassembled — and `channel_available_memory` asked right after a dump is max − mem. (An error path leaves a connection
+/// disconnected with its channel half-updated; such a connection accepts and emits nothing any more, so a dump is judged
+/// only when a later `stat` still shows the endpoint connected.)
+fn oracle_c09_exact(ops: &[String], outs: &[String]) -> Option<OracleFail> {
+    let mut pending: Vec<(String, OracleFail)> = vec![];
+    for (i, (op, out)) in ops.iter().zip(outs.iter()).enumerate() {
+        let t: Vec<&str> = op.split(' ').collect();
+        match t[0] {
+            "stat" if t.len() == 2 && out == "connected" => {
+                if let Some(pos) = pending.iter().position(|p| p.0 == t[1]) {
+                    let mut f = pending.remove(pos).1;
+                    f.at = i;
+                    return Some(f);
+                }
+            }
+            // a new object under the name: what was pending belongs to the old one
+            "cli" | "lnew" | "add" | "rem" | "ldisc" if t.len() >= 2 => {
+                let names: Vec<String> = match t[0] {
+                    "cli" => vec![format!("c{}", t[1])],
+                    "lnew" | "ldisc" if t.len() == 3 => vec![format!("s{}", t[1]), format!("c{}", t[2])],
+                    _ => vec![format!("s{}", t[1])],
+                };
+                pending.retain(|p| !names.contains(&p.0));
+            }
+            "dump" if t.len() == 2 && out.starts_with("seq=") => {
+                if pending.iter().any(|p| p.0 == t[1]) {
+                    continue;
+                }
+                let sum = |list: &str, f: &dyn Fn(&str) -> Option<u64>| -> Option<u64> {
+                    let mut s = 0u64;
+                    for e in list.split(';').filter(|x| !x.is_empty()) {
+                        s += f(e)?;
+                    }
+                    Some(s)
+                };
+                for (name, b) in dump_blocks(out) {
+                    let mem: u64 = match field(&b, "mem").and_then(|x| x.parse().ok()) {
+                        Some(m) => m,
+                        None => continue,
+                    };
+                    let max: u64 = field(&b, "max").and_then(|x| x.parse().ok()).unwrap_or(0);
+                    let slices = |e: &str| -> Option<u64> {
+                        // id=<received>/<num_slices>:<bits>:<len>
+                        let n: u64 = e.split_once('=')?.1.split(':').next()?.split_once('/')?.1.parse().ok()?;
+                        Some(n * 1200)
+                    };
+                    let holds: Option<u64> = if name.starts_with("sr") {
+                        // id:S<len>@…   |   id:L<len>,…
+                        sum(field(&b, "un").unwrap_or(""), &|e| {
+                            let r = e.split_once(':')?.1;
+                            r[1..].split(|c| c == '@' || c == ',').next()?.parse().ok()
+                        })
+                    } else if name.starts_with("su") {
+                        sum(field(&b, "q").unwrap_or(""), &|e| e.parse().ok())
+                    } else if name.starts_with("rr") {
+                        match (sum(field(&b, "msgs").unwrap_or(""), &|e| e.split_once(':')?.1.parse().ok()), sum(field(&b, "sl").unwrap_or(""), &slices)) {
+                            (Some(a), Some(c)) => Some(a + c),
+                            _ => None,
+                        }
+                    } else if name.starts_with("ru") {
+                        match (sum(field(&b, "msgs").unwrap_or(""), &|e| e.parse().ok()), sum(field(&b, "sl").unwrap_or(""), &slices)) {
+                            (Some(a), Some(c)) => Some(a + c),
+                            _ => None,
+                        }
+                    } else {
+                        None
+                    };
+                    let holds = match holds {
+                        Some(h) => h,
+                        None => continue,
+                    };
+                    if holds != mem {
+                        pending.push((
+                            t[1].to_string(),
+                            OracleFail { at: i, signature: "accounted-differs-from-held".into(), what: format!("{} {} (dump at op {}): {} bytes accounted, but the channel holds {} (budget {})", t[1], name, i, mem, holds, max) },
+                        ));
+                        break;
+                    }
+                    // channel_available_memory right after the dump
+                    if name.starts_with("sr") || name.starts_with("su") {
+                        if let Some(next) = ops.get(i + 1) {
+                            if next == &format!("avail {} {}", t[1], &name[2..]) {
+                                if let Ok(a) = outs[i + 1].parse::<u64>() {
+                                    if a != max.saturating_sub(mem) || mem > max {
+                                        pending.push((
+                                            t[1].to_string(),
+                                            OracleFail { at: i + 1, signature: "available-is-not-max-minus-accounted".into(), what: format!("{} channel {}: {} bytes available reported, accounted {} of {}", t[1], &name[2..], a, mem, max) },
+                                        ));
+                                        break;
+                                    }
+                                }
+                            }
+                        }
+                    }
+                }
+            }
+            _ => {}
+        }
+    }
+    None
+}
+
 /// C12: event stream = what the API calls imply (alternation per id, first stored reason),
 /// disconnected endpoints emit nothing, yield nothing, and keep their reason.
 fn oracle_c12(ops: &[String], outs: &[String]) -> Option<OracleFail> {
@@ -3457,12 +4399,31 @@ fn oracle_c12(ops: &[String], outs: &[String]) -> Option<OracleFail> {
                     }
                 }
             }
+            // the application's own disconnect calls: from here on the endpoint is disconnected, whatever `stat` is (not)
+            // asked in between ("?" = the reason is whatever it was first disconnected with)
+            "sdisc" if t.len() == 2 && out == "ok" => {
+                if present.contains(t[1]) {
+                    disconnected.entry(format!("s{}", t[1])).or_insert_with(|| "?".to_string());
+                }
+            }
+            "sdiscall" if out == "ok" => {
+                for id in present.iter() {
+                    disconnected.entry(format!("s{}", id)).or_insert_with(|| "?".to_string());
+                }
+            }
+            "disc" | "disct" if t.len() == 2 && out == "ok" => {
+                disconnected.entry(format!("c{}", t[1])).or_insert_with(|| "?".to_string());
+            }
             "stat" if t.len() == 2 => {
                 if out == "notfound" || out == "bad-op" {
                     continue;
                 }
                 if let Some(r) = disconnected.get(t[1]) {
-                    if out != r {
+                    if r == "?" {
+                        if !out.starts_with("disconnected:") {
+                            return fail(i, "disconnect-not-final", format!("{} was disconnected by a call of the application and is now {}", t[1], out));
+                        }
+                    } else if out != r {
                         return fail(i, "disconnect-not-final", format!("{} was {} and is now {}", t[1], r, out));
                     }
                 }
@@ -3751,6 +4712,108 @@ fn oracle_duplicates_harmless(ops: &[String], outs: &[String]) -> Option<OracleF
     None
 }
 
+/// per (sender, channel): (worst-case bytes every message submitted so far can occupy on either side, channel budget).
+/// A message of n bytes occupies n bytes at the sender and, at the receiver, n bytes once assembled or ceil(n/1200) x 1200
+/// while its slices are collected; every message id is accounted at most once at any time on each side.
+fn budget_sums(ops: &[String], upto: usize) -> HashMap<(String, u8), (u64, u64)> {
+    let mut cfg = Cfg::default();
+    let mut res: HashMap<(String, u8), (u64, u64)> = HashMap::new();
+    let mut added: Vec<String> = vec![];
+    let cost = |len: u64| if len > 1200 { (len + 1199) / 1200 * 1200 } else { len };
+    for op in ops[..upto.min(ops.len())].iter() {
+        let t: Vec<&str> = op.split(' ').collect();
+        let mut add = |cfg: &Cfg, who: &str, ch: &str, bytes: u64| {
+            if let Ok(ch) = ch.parse::<u8>() {
+                let list = if who.starts_with('c') { &cfg.client } else { &cfg.server };
+                if let Some(c) = list.iter().find(|c| c.0 == ch) {
+                    let e = res.entry((who.to_string(), ch)).or_insert((0, c.2 as u64));
+                    e.0 += bytes;
+                }
+            }
+        };
+        let hexlen = |h: &str| if h == "-" { 0 } else { (h.len() / 2) as u64 };
+        match t[0] {
+            "cfg" => {
+                if let Some(c) = parse_cfg(op) {
+                    cfg = c
+                }
+            }
+            "add" if t.len() == 2 => added.push(t[1].to_string()),
+            "send" if t.len() == 4 => add(&cfg, t[1], t[2], cost(hexlen(t[3]))),
+            "sendn" if t.len() == 5 => add(&cfg, t[1], t[2], 5 * t[3].parse::<u64>().unwrap_or(0)),
+            "bcast" if t.len() == 3 => {
+                for id in added.iter() {
+                    add(&cfg, &format!("s{}", id), t[1], cost(hexlen(t[2])));
+                }
+            }
+            "bcastx" if t.len() == 4 => {
+                for id in added.iter() {
+                    if id != t[1] {
+                        add(&cfg, &format!("s{}", id), t[2], cost(hexlen(t[3])));
+                    }
+                }
+            }
+            _ => {}
+        }
+    }
+    res
+}
+
+/// C09 (last clause) / C01 / C02 (their "neither side has been disconnected" hypothesis must not be an escape hatch): "a
+/// connection whose traffic stays within its budgets is never disconnected for exhausted channel memory". From the trace:
+/// if everything ever submitted on a channel fits that channel's budget even when every message is counted at its worst
+/// (see `budget_sums`) and the pair was fed nothing but each other's genuine packets, no status of either end may be a
+/// Send/ReceiveChannelError of that channel.
+fn oracle_in_budget(ops: &[String], outs: &[String]) -> Option<OracleFail> {
+    let mut tainted: std::collections::HashSet<String> = Default::default();
+    let mut seen_endpoint: std::collections::HashSet<String> = Default::default();
+    let taint = |set: &mut std::collections::HashSet<String>, who: &str| {
+        set.insert(who.to_string());
+        if let Some(p) = peer_of(who) {
+            set.insert(p);
+        }
+    };
+    for (i, (op, out)) in ops.iter().zip(outs.iter()).enumerate() {
+        let t: Vec<&str> = op.split(' ').collect();
+        match t[0] {
+            "lnew" | "lproc" | "ldisc" => return None,
+            "cli" | "add" if t.len() == 2 => {
+                let who = if t[0] == "cli" { format!("c{}", t[1]) } else { format!("s{}", t[1]) };
+                if !seen_endpoint.insert(who.clone()) {
+                    taint(&mut tainted, &who);
+                }
+            }
+            "raw" | "dlvm" if t.len() > 1 => taint(&mut tainted, t[1]),
+            "dlv" if t.len() == 4 => {
+                if peer_of(t[1]).as_deref() != Some(t[2]) {
+                    taint(&mut tainted, t[1]);
+                }
+            }
+            "stat" if t.len() == 2 && out.starts_with("disconnected:") && !tainted.contains(t[1]) => {
+                let (send_side, rest) = if let Some(r) = out.strip_prefix("disconnected:SendChannelError(") {
+                    (true, r)
+                } else if let Some(r) = out.strip_prefix("disconnected:ReceiveChannelError(") {
+                    (false, r)
+                } else {
+                    continue;
+                };
+                let ch: u8 = match rest.split(',').next().and_then(|x| x.parse().ok()) {
+                    Some(c) => c,
+                    None => continue,
+                };
+                let sender = if send_side { t[1].to_string() } else { peer_of(t[1])? };
+                let sums = budget_sums(ops, i);
+                let (sum, max) = sums.get(&(sender.clone(), ch)).copied().unwrap_or((0, u64::MAX));
+                if sum <= max {
+                    return fail(i, "in-budget-memory-disconnect", format!("{} is `{}` although everything {} ever submitted on channel {} occupies at most {} bytes of the {}-byte budget and the pair saw only genuine packets", t[1], out, sender, ch, sum, max));
+                }
+            }
+            _ => {}
+        }
+    }
+    None
+}
+
 /// C15 (last clause, from the trace alone): once an Ack packet naming sequence q has been processed by
 /// the endpoint that sent q less than 3 s (here: 2.9 s) earlier on its own clock, nothing q carried is
 /// transmitted again. Independent of the implementation's own bookkeeping (the dump-based oracle trusts
@@ -3806,6 +4869,146 @@ fn oracle_c15_acked(ops: &[String], outs: &[String]) -> Option<OracleFail> {
                             }
                         }
                     }
+                }
+            }
+            _ => {}
+        }
+    }
+    None
+}
+
+/// C15 (second clause) / C14 ("what does not fit waits for a later tick" — and only what does not fit), judged on the
+/// TRACE's own clock and transmission history instead of the implementation's `last_sent` bookkeeping: at a `dump X`
+/// immediately followed by `flush X`, every entry the dump lists as unacknowledged whose previous transmission (as seen in
+/// X's earlier flushes; none = never transmitted) lies at least resend_time back on X's clock must be carried by this
+/// flush, unless the budget does not allow it. "Budget allows" is decided soundly from the flush itself: the sender skips
+/// a small message only when fewer budget bytes are left than its length and a slice only when fewer than 1200 are left;
+/// what is left at that moment is at least the budget minus everything this flush carried. The verdict waits for a later
+/// `stat X` = connected (a disconnected endpoint emits nothing).
+fn oracle_c15_prompt_trace(ops: &[String], outs: &[String]) -> Option<OracleFail> {
+    prompt_trace(ops, outs, false)
+}
+
+/// the C14 reading of the same rule: only FIRST transmissions are judged (when a retransmission is due is C15's business)
+fn oracle_c14_fits_goes(ops: &[String], outs: &[String]) -> Option<OracleFail> {
+    prompt_trace(ops, outs, true)
+}
+
+fn prompt_trace(ops: &[String], outs: &[String], first_only: bool) -> Option<OracleFail> {
+    let mut cfg = Cfg::default();
+    let mut clock: HashMap<String, u64> = HashMap::new();
+    let mut last_tx: HashMap<(String, u8, u64, i64), u64> = HashMap::new();
+    let mut srv_clock = 0u64;
+    let mut born: HashMap<String, u64> = HashMap::new();
+    let mut pending: Vec<(String, OracleFail)> = vec![];
+    for (i, (op, out)) in ops.iter().zip(outs.iter()).enumerate() {
+        let t: Vec<&str> = op.split(' ').collect();
+        match t[0] {
+            "cfg" => {
+                if let Some(c) = parse_cfg(op) {
+                    cfg = c
+                }
+            }
+            "add" if t.len() == 2 => {
+                born.entry(format!("s{}", t[1])).or_insert(srv_clock);
+            }
+            "rem" | "raw" | "dlvm" | "lnew" | "lproc" => return None,
+            "upd" if t.len() == 3 => {
+                let us: u64 = t[2].parse().unwrap_or(0);
+                if t[1] == "srv" {
+                    srv_clock += us;
+                } else {
+                    *clock.entry(t[1].to_string()).or_insert(0) += us;
+                }
+            }
+            "stat" if t.len() == 2 && out == "connected" => {
+                if let Some(pos) = pending.iter().position(|p| p.0 == t[1]) {
+                    let mut f = pending.remove(pos).1;
+                    f.at = i;
+                    return Some(f);
+                }
+            }
+            "flush" if t.len() == 2 => {
+                let who = t[1];
+                let now = if who.starts_with('s') { srv_clock - born.get(who).copied().unwrap_or(0) } else { *clock.get(who).unwrap_or(&0) };
+                let mut carried: std::collections::HashSet<(u8, u64, i64)> = Default::default();
+                let mut used = 0u64;
+                let mut undecodable = false;
+                for p in flush_packets(out) {
+                    match decode(p) {
+                        Some(pk) => {
+                            used += payload_bytes(&pk);
+                            match pk {
+                                WPacket::SmallReliable { channel_id, messages, .. } => {
+                                    for (id, _) in messages {
+                                        carried.insert((channel_id, id, -1));
+                                    }
+                                }
+                                WPacket::ReliableSlice { channel_id, slice, .. } => {
+                                    carried.insert((channel_id, slice.message_id, slice.slice_index as i64));
+                                }
+                                _ => {}
+                            }
+                        }
+                        None => undecodable = true,
+                    }
+                }
+                let judged = i > 0 && ops[i - 1] == format!("dump {}", who) && outs[i - 1].starts_with("seq=") && !undecodable && !pending.iter().any(|p| p.0 == who);
+                if judged {
+                    let left = cfg.budget.saturating_sub(used);
+                    let list = if who.starts_with('c') { &cfg.client } else { &cfg.server };
+                    'blocks: for (name, b) in dump_blocks(&outs[i - 1]) {
+                        if !name.starts_with("sr") {
+                            continue;
+                        }
+                        let ch: u8 = name[2..].parse().unwrap_or(0);
+                        let resend = list.iter().find(|c| c.0 == ch).map(|c| c.3).unwrap_or(0);
+                        for e in field(&b, "un").unwrap_or("").split(';').filter(|x| !x.is_empty()) {
+                            let (id, rest) = match e.split_once(':') {
+                                Some(x) => x,
+                                None => continue,
+                            };
+                            let id: u64 = id.parse().unwrap_or(0);
+                            let head = rest.split('@').next().unwrap_or("");
+                            // (slice index or -1, budget bytes the sender wants to see before sending it)
+                            let mut items: Vec<(i64, u64)> = vec![];
+                            if let Some(len) = head.strip_prefix('S') {
+                                items.push((-1, len.parse().unwrap_or(u64::MAX)));
+                            } else if head.starts_with('L') {
+                                let f: Vec<&str> = head[1..].split(',').collect();
+                                for (k, bit) in f.get(4).copied().unwrap_or("").chars().enumerate() {
+                                    if bit == '0' {
+                                        items.push((k as i64, 1200));
+                                    }
+                                }
+                            }
+                            for (sl, need) in items {
+                                let key = (who.to_string(), ch, id, sl);
+                                let due = match last_tx.get(&key) {
+                                    None => true,
+                                    Some(prev) => !first_only && now - prev >= resend,
+                                };
+                                if due && !carried.contains(&(ch, id, sl)) && left >= need {
+                                    let sig = if cfg.budget >= 1_000_000 { "due-not-sent" } else { "due-fits-not-sent" };
+                                    pending.push((
+                                        who.to_string(),
+                                        OracleFail {
+                                            at: i,
+                                            signature: sig.into(),
+                                            what: format!(
+                                                "{} channel {} message {} slice {} is unacknowledged at op {} and due on the trace's clock (previous transmission {:?} µs, now {} µs, resend_time {} µs), the flush carried {} of {} budget bytes, yet it is not in the flush",
+                                                who, ch, id, sl, i, last_tx.get(&key), now, resend, used, cfg.budget
+                                            ),
+                                        },
+                                    ));
+                                    break 'blocks;
+                                }
+                            }
+                        }
+                    }
+                }
+                for (ch, id, sl) in carried {
+                    last_tx.insert((who.to_string(), ch, id, sl), now);
                 }
             }
             _ => {}
@@ -3889,6 +5092,19 @@ fn oracle_c08(ops: &[String], outs: &[String]) -> Option<OracleFail> {
     let mut got_item: HashMap<String, std::collections::HashSet<(u8, u64, i64)>> = HashMap::new();
     // what each sender ever emitted per (ch,id): number of slices (0 = small)
     let mut shape: HashMap<(String, u8, u64), u64> = HashMap::new();
+    // every range an endpoint claims (pending list or emitted Ack packet) must consist of sequence numbers that were
+    // handed to it: a range wider than the number of hand-overs cannot (no need to walk it: that is what a wrapped or
+    // underflowed bound looks like), a narrower one is walked
+    let check_range = |got: Option<&std::collections::HashSet<u64>>, a: u64, b: u64| -> Option<u64> {
+        let n = got.map(|g| g.len() as u64).unwrap_or(0);
+        if b < a {
+            return Some(a);
+        }
+        if b - a > n {
+            return Some((a..b).find(|s| !got.map(|g| g.contains(s)).unwrap_or(false)).unwrap_or(a));
+        }
+        (a..b).find(|s| !got.map(|g| g.contains(s)).unwrap_or(false))
+    };
     for (i, (op, out)) in ops.iter().zip(outs.iter()).enumerate() {
         let t: Vec<&str> = op.split(' ').collect();
         match t[0] {
@@ -3897,6 +5113,13 @@ fn oracle_c08(ops: &[String], outs: &[String]) -> Option<OracleFail> {
                 for p in flush_packets(out) {
                     hist.entry(t[1].to_string()).or_default().push(p.to_string());
                     match decode(p) {
+                        Some(WPacket::Ack { ack_ranges, .. }) => {
+                            for r in ack_ranges {
+                                if let Some(bad) = check_range(got_seq.get(t[1]), r.start, r.end) {
+                                    return fail(i, "ack-packet-unreceived-sequence", format!("{} emits an Ack packet with the range {}..{}, but no packet with sequence {} was delivered to it ({} distinct sequences were)", t[1], r.start, r.end, bad, got_seq.get(t[1]).map(|g| g.len()).unwrap_or(0)));
+                                }
+                            }
+                        }
                         Some(WPacket::SmallReliable { channel_id, messages, .. }) => {
                             for (id, _) in messages {
                                 shape.insert((t[1].to_string(), channel_id, id), 0);
@@ -3937,13 +5160,8 @@ fn oracle_c08(ops: &[String], outs: &[String]) -> Option<OracleFail> {
                     for r in acks.split(';').filter(|x| !x.is_empty()) {
                         if let Some((a, b)) = r.split_once('-') {
                             let (a, b): (u64, u64) = (a.parse().unwrap_or(0), b.parse().unwrap_or(0));
-                            if b - a > 100_000 {
-                                continue;
-                            }
-                            for s in a..b {
-                                if !got.map(|g| g.contains(&s)).unwrap_or(false) {
-                                    return fail(i, "acks-unreceived-sequence", format!("{} holds sequence {} in its pending acks but no packet with that sequence was delivered to it", who, s));
-                                }
+                            if let Some(s) = check_range(got, a, b) {
+                                return fail(i, "acks-unreceived-sequence", format!("{} holds the range {}-{} in its pending acks but no packet with sequence {} was delivered to it", who, a, b, s));
                             }
                         }
                     }
@@ -3994,11 +5212,22 @@ pub fn oracles() -> Vec<Oracle> {
     vec![
         Oracle { prop: "C01", name: "ordered-prefix", engines: &["rn-pair", "rn-multi", "rn-timing", "rn-long", "rn-acks", "rn-tight", "rn-volume"], check: oracle_c01 },
         Oracle { prop: "C02", name: "unordered-once", engines: &["rn-pair", "rn-multi", "rn-timing", "rn-long", "rn-acks", "rn-tight", "rn-regress", "rn-volume"], check: oracle_c02 },
+        Oracle { prop: "C02", name: "unordered-no-head-of-line", engines: &["rn-pair", "rn-multi", "rn-timing", "rn-long", "rn-acks", "rn-tight", "rn-regress", "rn-volume"], check: oracle_hol_unordered },
+        Oracle { prop: "C11", name: "no-head-of-line", engines: &["rn-pair", "rn-multi", "rn-volume-mixed"], check: oracle_hol_any },
         Oracle { prop: "C03", name: "integrity", engines: &["rn-pair", "rn-unrel"], check: oracle_c03 },
+        Oracle { prop: "C03", name: "integrity-delivery-bounded", engines: &["rn-pair", "rn-unrel", "rn-multi", "rn-bigmsg"], check: oracle_integrity },
+        Oracle { prop: "C11", name: "only-what-was-sent-to-it", engines: &["rn-multi", "rn-hostile", "rn-pair", "rn-unrel", "rn-volume-mixed"], check: oracle_integrity },
+        Oracle { prop: "C11", name: "disconnects-have-a-cause", engines: &["rn-multi", "rn-hostile", "rn-pair", "rn-unrel", "rn-volume-mixed"], check: oracle_disconnect_justified },
+        Oracle { prop: "C06", name: "disconnects-have-a-cause", engines: &["rn-hostile", "rn-pair", "rn-tight", "rn-acks"], check: oracle_disconnect_justified },
+        Oracle { prop: "C11", name: "bystander-ordered", engines: &["rn-hostile"], check: oracle_c01_bystander },
+        Oracle { prop: "C11", name: "bystander-unordered", engines: &["rn-hostile"], check: oracle_c02_bystander },
+        Oracle { prop: "C06", name: "bystander-ordered", engines: &["rn-hostile"], check: oracle_c01_bystander },
+        Oracle { prop: "C06", name: "bystander-unordered", engines: &["rn-hostile"], check: oracle_c02_bystander },
         Oracle { prop: "C02", name: "bulk", engines: &["rn-huge"], check: oracle_bulk },
         Oracle { prop: "C01", name: "bulk", engines: &["rn-huge"], check: oracle_bulk },
         Oracle { prop: "C16", name: "roundtrip", engines: &["rn-wire"], check: oracle_c16 },
         Oracle { prop: "C08", name: "ack-encoding-roundtrip", engines: &["rn-wire"], check: oracle_c16_acks },
+        Oracle { prop: "C16", name: "emitted-roundtrip", engines: &["rn-volume-seq", "rn-acks", "rn-long"], check: oracle_c16_emitted },
         Oracle { prop: "C16", name: "acks-are-the-set", engines: &["rn-sweep-acks"], check: oracle_sweep_acks },
         Oracle { prop: "C08", name: "acks-are-the-set", engines: &["rn-sweep-acks"], check: oracle_sweep_acks },
         Oracle { prop: "C06", name: "no-panic-bounded", engines: &["rn-"], check: oracle_c06 },
@@ -4006,20 +5235,32 @@ pub fn oracles() -> Vec<Oracle> {
         Oracle { prop: "C09", name: "duplicates-harmless", engines: &["rn-tight", "rn-pair", "rn-timing"], check: oracle_duplicates_harmless },
         Oracle { prop: "C01", name: "duplicates-harmless", engines: &["rn-tight", "rn-pair", "rn-timing"], check: oracle_duplicates_harmless },
         Oracle { prop: "C02", name: "duplicates-harmless", engines: &["rn-tight", "rn-pair", "rn-timing"], check: oracle_duplicates_harmless },
+        Oracle { prop: "C09", name: "in-budget-never-memory-disconnect", engines: &["rn-pair", "rn-long", "rn-acks", "rn-timing", "rn-tight", "rn-hostile", "rn-unrel", "rn-regress"], check: oracle_in_budget },
+        Oracle { prop: "C01", name: "in-budget-never-memory-disconnect", engines: &["rn-pair", "rn-multi", "rn-long", "rn-acks", "rn-timing", "rn-tight", "rn-volume"], check: oracle_in_budget },
+        Oracle { prop: "C02", name: "in-budget-never-memory-disconnect", engines: &["rn-pair", "rn-multi", "rn-long", "rn-acks", "rn-timing", "rn-tight", "rn-volume", "rn-regress"], check: oracle_in_budget },
         Oracle { prop: "C11", name: "local-exactly-once", engines: &["rn-local-rejoin"], check: oracle_local_exact },
         Oracle { prop: "C12", name: "server-queries", engines: &["rn-api"], check: oracle_server_queries },
         Oracle { prop: "C11", name: "server-queries", engines: &["rn-api"], check: oracle_server_queries },
-        Oracle { prop: "C15", name: "never-after-ack-processed", engines: &["rn-pair", "rn-timing", "rn-acks", "rn-tight", "rn-long", "rn-unrel", "rn-volume"], check: oracle_c15_acked },
-        Oracle { prop: "C14", name: "unreliable-work-conserving", engines: &["rn-unrel", "rn-pair", "rn-timing", "rn-long"], check: oracle_unrel_work_conserving },
-        Oracle { prop: "C11", name: "unreliable-work-conserving", engines: &["rn-unrel", "rn-pair", "rn-timing", "rn-long"], check: oracle_unrel_work_conserving },
+        // rn-long is not an engine here / below: one quick case costs 6 s in the model, C14/C15/C11 do not list it
+        Oracle { prop: "C15", name: "never-after-ack-processed", engines: &["rn-pair", "rn-timing", "rn-acks", "rn-tight", "rn-unrel", "rn-volume"], check: oracle_c15_acked },
+        Oracle { prop: "C14", name: "unreliable-work-conserving", engines: &["rn-unrel", "rn-pair"], check: oracle_unrel_work_conserving },
+        Oracle { prop: "C11", name: "unreliable-work-conserving", engines: &["rn-unrel", "rn-pair"], check: oracle_unrel_work_conserving },
         Oracle { prop: "C09", name: "unreliable-in-budget", engines: &["rn-unrel"], check: oracle_unrel_budget },
         Oracle { prop: "C03", name: "unreliable-in-budget", engines: &["rn-unrel"], check: oracle_unrel_budget },
         Oracle { prop: "C09", name: "accounting", engines: &["rn-pair", "rn-hostile", "rn-regress", "rn-long", "rn-timing", "rn-acks", "rn-tight", "rn-sweep-slices", "rn-sweep-triples"], check: oracle_c09 },
+        Oracle { prop: "C09", name: "accounting-exact", engines: &["rn-pair", "rn-hostile", "rn-regress", "rn-long", "rn-timing", "rn-acks", "rn-tight", "rn-sweep-slices", "rn-sweep-triples", "rn-unrel"], check: oracle_c09_exact },
         Oracle { prop: "C12", name: "finality-events", engines: &["rn-api", "rn-regress", "rn-hostile", "rn-events-burst", "rn-local-rejoin"], check: oracle_c12 },
-        Oracle { prop: "C13", name: "packet-size", engines: &["rn-pair", "rn-regress", "rn-multi", "rn-hostile", "rn-long", "rn-timing", "rn-acks", "rn-volume", "rn-unrel"], check: oracle_c13 },
+        Oracle { prop: "C13", name: "packet-size", engines: &["rn-pair", "rn-regress", "rn-multi", "rn-hostile", "rn-long", "rn-timing", "rn-acks", "rn-volume", "rn-unrel", "rn-sweep-acks-cap"], check: oracle_c13 },
+        Oracle { prop: "C13", name: "buildable-packets-serialize", engines: &["rn-wire"], check: oracle_c13_wire },
         Oracle { prop: "C14", name: "budget", engines: &["rn-pair", "rn-multi", "rn-unrel", "rn-timing"], check: oracle_c14 },
         Oracle { prop: "C15", name: "resend-timing", engines: &["rn-pair", "rn-timing"], check: oracle_c15 },
         Oracle { prop: "C15", name: "prompt-and-final", engines: &["rn-timing"], check: oracle_c15_prompt },
+        Oracle { prop: "C15", name: "prompt-on-trace-clock", engines: &["rn-timing", "rn-pair"], check: oracle_c15_prompt_trace },
+        Oracle { prop: "C14", name: "waits-only-if-it-does-not-fit", engines: &["rn-pair", "rn-timing"], check: oracle_c14_fits_goes },
+        Oracle { prop: "C14", name: "reliable-waits-ordered", engines: &["rn-pair-smallbudget"], check: oracle_c01 },
+        Oracle { prop: "C14", name: "reliable-waits-unordered", engines: &["rn-pair-smallbudget"], check: oracle_c02 },
+        Oracle { prop: "C15", name: "retransmitted-until-obtained-ordered", engines: &["rn-timing-overflow", "rn-pair-smallbudget"], check: oracle_c01 },
+        Oracle { prop: "C15", name: "retransmitted-until-obtained-unordered", engines: &["rn-timing-overflow", "rn-pair-smallbudget"], check: oracle_c02 },
         Oracle { prop: "C08", name: "release-after-delivery", engines: &["rn-pair", "rn-timing", "rn-long", "rn-acks", "rn-volume", "rn-multi-ackgap"], check: oracle_c08 },
         Oracle { prop: "C11", name: "isolation-ordered", engines: &["rn-multi", "rn-volume-mixed"], check: oracle_c01 },
         Oracle { prop: "C11", name: "isolation-unordered", engines: &["rn-multi", "rn-volume-mixed"], check: oracle_c02 },
